@@ -51,14 +51,16 @@ REPL_NAMES = ["null", "true", "-1", "0", "2^31", "real", "string", "name", "[]",
 # (indices are part of pinned replay files: only ever append)
 TRAILER_REPL = list(REPL) + ["SELFPOS", 7]
 REPL += [10 ** 30, -10 ** 30, W.Real("1" + "0" * 60 + ".0"), b"", [W.R(9999)], [None], "CHAIN1", "CHAIN2", 2 ** 63 - 1,
-         2 ** 63 - 300, "FANOUT"]
+         2 ** 63 - 300, "FANOUT", 10 ** 400, "STREAMREF", W.N("to-unicode-Adobe-Japan1")]
 REPL_NAMES += ["10^30", "-10^30", "real 1e60", "empty string", "[missing-ref]", "[null]",
                "ref to a new object whose value is a reference to itself",
                "ref to a new object leading into a cycle of two further objects", "2^63-1", "2^63-300",
-               "ref to an array of four references to an array of four references ... 14 levels deep"]
+               "ref to an array of four references to an array of four references ... 14 levels deep", "10^400",
+               "ref to a (new) stream object", "name of a to-unicode resource"]
 # objects added to the file for the CHAIN replacements: a reference chain that *enters* a cycle
 CHAIN_OBJS = {"CHAIN1": {9000: W.R(9000)}, "CHAIN2": {9000: W.R(9001), 9001: W.R(9002), 9002: W.R(9001)},
               # no cycle, but 4**14 paths: every object must be resolved once, not once per path
+              "STREAMREF": {9000: W.Stream({}, b"q Q")},
               "FANOUT": dict([(9000 + i, [W.R(9001 + i)] * 4) for i in range(14)] + [(9014, [1, 2, 3, 4])])}
 TRAILER_REPL += REPL[16:]
 TRAILER_REPL_NAMES = REPL_NAMES[:16] + ["own startxref offset", "7"] + REPL_NAMES[16:]
@@ -154,7 +156,8 @@ def _plain_lzw(v):
 
 
 NUM_TOKEN = re.compile(rb"(?<![\w.#/<(\[-])[-+]?(?:\d+\.?\d*|\.\d+)(?![\w.>)])")
-OPERAND_REPL = [b"/N", b"(s)", b"[1]", b"<< >>", b"", b"9" * 400, b"1" + b"0" * 30 + b".5", b"-", b"null"]
+OPERAND_REPL = [b"/N", b"(s)", b"[1]", b"<< >>", b"", b"9" * 400, b"1" + b"0" * 30 + b".5", b"-", b"null",
+                b"9" * 400 + b".5", b"-" + b"9" * 400 + b".5"]
 
 
 # trailer / cross-reference-stream dictionary entries; values REPL[r], then "SELFPOS" (the file's own startxref offset:
